@@ -1,6 +1,7 @@
 package harness
 
 import (
+	"strings"
 	"sync/atomic"
 	"time"
 	"bufio"
@@ -91,6 +92,12 @@ func TestWorker(t *testing.T) {
 			}
 		}
 	}()
+	rl := &raceLogReader{}
+	for _, kv := range strings.Fields(os.Getenv("GORACE")) {
+		if strings.HasPrefix(kv, "log_path=") {
+			rl.path = fmt.Sprintf("%s.%d", strings.TrimPrefix(kv, "log_path="), os.Getpid())
+		}
+	}
 	for _, seed := range job.Seeds {
 		curSeed.Store(seed)
 		beat.Store(time.Now().UnixNano())
@@ -99,15 +106,17 @@ func TestWorker(t *testing.T) {
 			emit(&Record{Seed: seed, Property: job.Property, Infra: "no generator for " + job.Property}, nil)
 			continue
 		}
-		var rec *Record
-		t.Run(fmt.Sprintf("seed%d", seed), func(t *testing.T) { rec = RunPlan(t, p, job.WantLog || *flagLog) })
+		rec := &Record{Seed: seed, Property: job.Property, Infra: "run did not produce a record (subtest aborted)"}
+		t.Run(fmt.Sprintf("seed%d", seed), func(t *testing.T) { RunPlanInto(t, p, job.WantLog || *flagLog, rec) })
+		addRaces(rec, rl.next())
 		emit(rec, p)
 	}
 	for _, p := range job.Plans {
 		curSeed.Store(p.Seed)
 		beat.Store(time.Now().UnixNano())
-		var rec *Record
-		t.Run(fmt.Sprintf("plan%d", p.Seed), func(t *testing.T) { rec = RunPlan(t, p, job.WantLog || *flagLog) })
+		rec := &Record{Seed: p.Seed, Property: job.Property, Infra: "run did not produce a record (subtest aborted)"}
+		t.Run(fmt.Sprintf("plan%d", p.Seed), func(t *testing.T) { RunPlanInto(t, p, job.WantLog || *flagLog, rec) })
+		addRaces(rec, rl.next())
 		emit(rec, p)
 	}
 }
